@@ -199,6 +199,15 @@ func (s *session[H]) doRequest(
 	}
 
 	h, err := s.processResponses(r)
+	if err == nil && h[0].Height() != req.GetOrigin() {
+		// the range is verified against `from` only, which permits a non-adjacent first header:
+		// ensure the peer answered the range that was asked for
+		err = fmt.Errorf(
+			"header/p2p: peer responded with a range starting at %d, requested %d",
+			h[0].Height(),
+			req.GetOrigin(),
+		)
+	}
 	if err != nil {
 		span.SetStatus(codes.Error, err.Error())
 		logFn := log.Errorw
